@@ -577,6 +577,82 @@ fn small_programs() -> Vec<Vec<Vec<COp>>> {
     out
 }
 
+// ------------------------------------------------------------------------------------------------
+// The same sequential histories over the TCP front end: a client only knows what the server answers. Every command is
+// sent on one TCP connection for key <k> and, in process, for a twin key with the same history; the acknowledgement
+// on the wire must be an error exactly when the in-process reply is a refusal (Error / VersionError).
+// ------------------------------------------------------------------------------------------------
+
+pub struct TcpWorld {
+    pub srv: crate::props::c10::TServer,
+    pub counter: std::cell::Cell<u64>,
+}
+
+pub fn run_tcp(w: &TcpWorld, case: &Case) -> Outcome {
+    let n = w.counter.get();
+    w.counter.set(n + 1);
+    let node = &w.srv.node;
+    let mut twin = Session::new();
+    twin.send(node, "use-db probe ptok");
+    let mut out = Outcome::ok(false);
+    out.classes.push("over-tcp");
+    let mut tcp = match crate::transport::TcpSession::connect(w.srv.tcp) {
+        Ok(t) => t,
+        Err(e) => {
+            eprintln!("C02 tcp engine: {}", e);
+            return out;
+        }
+    };
+    if let Err(e) = tcp.cmd("use-db probe ptok") {
+        eprintln!("C02 tcp engine: {}", e);
+        return out;
+    }
+    let mut refused_seen = false;
+    for (i, op) in case.ops.iter().enumerate() {
+        let (k0, line_for) = match op {
+            Op::Set { k, v } => (k.clone(), Box::new({ let v = v.clone(); move |key: &str, _cur: i32| format!("set {} {}", key, v) }) as Box<dyn Fn(&str, i32) -> String>),
+            Op::SetSafe { k, ver, v } => {
+                let (ver, v) = (ver.clone(), v.clone());
+                (k.clone(), Box::new(move |key: &str, cur: i32| { let x = match ver { V::Abs(a) => a, V::Rel(d) => cur.saturating_add(d) }; format!("set-safe {} {} {}", key, x, v) }) as Box<dyn Fn(&str, i32) -> String>)
+            }
+            Op::Inc { k, n } => (k.clone(), Box::new({ let n = *n; move |key: &str, _cur: i32| format!("increment {} {}", key, n) }) as Box<dyn Fn(&str, i32) -> String>),
+            Op::Remove { k } => (k.clone(), Box::new(|key: &str, _cur: i32| format!("remove {}", key)) as Box<dyn Fn(&str, i32) -> String>),
+            Op::Snapshot { .. } => continue,
+        };
+        let (key_tcp, key_twin) = (format!("{}w{}", k0, n), format!("{}t{}", k0, n));
+        let (_v, cur) = get_safe(&mut twin, node, &key_twin);
+        let (r, _msgs) = twin.send(node, &line_for(&key_twin, cur));
+        let refused = matches!(r, Response::Error { .. } | Response::VersionError { .. });
+        let line = line_for(&key_tcp, cur);
+        match tcp.cmd(&line) {
+            Err(e) => {
+                out.fail = Some(("C02|over-tcp|no-acknowledgement".into(), format!("step {} {:?}: {}", i, line, e)));
+                return out;
+            }
+            Ok((ack, _before)) => {
+                let ack_is_error = ack.starts_with("error");
+                if refused {
+                    refused_seen = true;
+                }
+                if ack_is_error != refused {
+                    let kind = match &r {
+                        Response::VersionError { .. } => "version-refusal",
+                        Response::Error { .. } => "error",
+                        _ => "accepted",
+                    };
+                    out.fail = Some((format!("C02|over-tcp|acknowledgement-disagrees-with-the-outcome|{}|{}", line.split(' ').next().unwrap_or(""), kind), format!("step {}: {:?} over TCP is answered {:?}; the same command on a key with the same history is {} in process ({})", i, line, ack, if refused { "REFUSED" } else { "accepted" }, crate::node::resp_text(&r))));
+                    return out;
+                }
+            }
+        }
+    }
+    out.nontrivial = refused_seen;
+    if refused_seen {
+        out.classes.push("a-refused-write-over-tcp");
+    }
+    out
+}
+
 pub fn run(ctx: &Ctx, rep: &mut Report) {
     crate::interpose::virtual_clock(true);
     let n = ctx.amount(20_000, 300_000);
@@ -589,10 +665,19 @@ pub fn run(ctx: &Ctx, rep: &mut Report) {
         let cases = progs.into_iter().flat_map(move |p| scheds.clone().into_iter().map(move |s| CCase { clients: p.clone(), schedule: s }));
         enumerate(ctx, rep, "two-clients-all-schedules-with-at-most-2-preemptions", cases, |c| conc_guard(ctx, c));
     }
+    if rep.failures.is_empty() {
+        let w = TcpWorld { srv: crate::props::c10::TServer::start(ctx), counter: std::cell::Cell::new(0) };
+        let n3 = ctx.amount(3000, 100_000);
+        explore(ctx, rep, "replies-over-tcp", n3, prop::collection::vec(op_strategy(), 1..10).prop_map(|ops| Case { ops }), |c| run_tcp(&w, c));
+    }
 }
 
 pub fn replay(ctx: &Ctx, engine: &str, case: &J) -> Result<Option<(String, String)>, String> {
     crate::interpose::virtual_clock(true);
+    if engine == "replies-over-tcp" {
+        let w = TcpWorld { srv: crate::props::c10::TServer::start(ctx), counter: std::cell::Cell::new(0) };
+        return replay_guarded::<Case>(ctx, case, |c| run_tcp(&w, c));
+    }
     if engine == "sequential" {
         replay_guarded::<Case>(ctx, case, |c| run_seq(ctx, c))
     } else {
